@@ -4,6 +4,7 @@ CONSTANTS
   Caps = {1, 2, 3}
   MaxLen = 4
   NilPuts = TRUE
+  Canon = FALSE
   Conc = FALSE
   Threads = {0}
 INIT Init
